@@ -5,7 +5,7 @@ import PsV.Model.FitsRead
 
 `readFixed` (read_fits_core with the validation block of fixes/C07-1.diff) accepts exactly the files `readCore`
 accepts whose table passes the per-dimension checks, and returns the same table; every table it returns is
-well-formed; the cleanup guard of fixes/C07-2.diff releases every block at every throw site.
+well-formed; the storage guard (`release_storage`, commit 907b348) releases every block at every throw site.
 -/
 namespace PsV.Fits
 
